@@ -184,7 +184,8 @@ Definition upr (old new : option snode) (m : amap res) : amap res :=
 Definition upr_c (old new : option snode) (c : cache) : cache := with_npr c (upr old new (npr c)).
 
 (* ---- cleanupNode / cleanupNodeClaim ---- *)
-Definition cleanup_node (name : string) (c : cache) : cache :=
+(* [keep_aggs] = true is the code before commit 7fed8b92b *)
+Definition cleanup_node_gen (keep_aggs : bool) (name : string) (c : cache) : cache :=
   let id := sget name (n2p c) in
   if id =s "" then c else
   match aget id (nodes c) with
@@ -193,11 +194,15 @@ Definition cleanup_node (name : string) (c : cache) : cache :=
       let c1 := match sn_claim s with
                 | None => with_nodes (upr_c (Some s) None c) (adel id (nodes c))
                 | Some _ =>
-                    let s' := mkSN None (sn_claim s) (sn_pods s) (sn_dsr s) (sn_costs s) (sn_vun s) (sn_marked s) in
+                    (* NewNode() keeping NodeClaim and the mark: the pods go away with the Node (7fed8b92b) *)
+                    let s' := if keep_aggs
+                              then mkSN None (sn_claim s) (sn_pods s) (sn_dsr s) (sn_costs s) (sn_vun s) (sn_marked s)
+                              else mkSN None (sn_claim s) [] [] [] [] (sn_marked s) in
                     with_nodes (upr_c (Some s) (Some s') c) (aset id s' (nodes c))
                 end in
       with_n2p c1 (adel name (n2p c1))
   end.
+Definition cleanup_node := cleanup_node_gen false.
 
 Definition cleanup_claim (name : string) (c : cache) : cache :=
   let id := sget name (c2p c) in
@@ -243,15 +248,17 @@ Definition pod_completion (k : string) (c : cache) : cache :=
   end.
 
 (* UpdatePod (the anti-affinity index is not modelled) *)
-Definition update_pod (p : podobj) (c : cache) : cache :=
+(* [pending_noop] = true is the code before commit eef19881a *)
+Definition update_pod_gen (pending_noop : bool) (p : podobj) (c : cache) : cache :=
   if p_term p then pod_completion (p_key p) c else
-  if p_node p =s "" then c else
+  if p_node p =s "" then (if pending_noop then c else pod_completion (p_key p) c) else
   match aget (sget (p_node p) (n2p c)) (nodes c) with
   | None => c                                     (* NotFound: the reconciler requeues *)
   | Some s =>
       let c1 := with_nodes c (aset (sget (p_node p) (n2p c)) (update_for_pod s p) (nodes c)) in
       bind_pod p (cleanup_old_bindings p c1)
   end.
+Definition update_pod := update_pod_gen false.
 
 (* ---- UpdateNode ---- *)
 Definition epid (n : nodeobj) : string := if n_pid n =s "" then n_name n else n_pid n.
@@ -267,19 +274,20 @@ Definition populate_step (name : string) (acc : snode * cache) (kp : string * po
   then (update_for_pod (fst acc) p, bind_pod p (cleanup_old_bindings p (snd acc)))
   else acc.
 
-Definition update_node (a : api) (n : nodeobj) (c : cache) : cache :=
+Definition update_node_gen (keep_aggs : bool) (a : api) (n : nodeobj) (c : cache) : cache :=
   if negb (trackable n) then c else
   let pid := epid n in
   let old := match aget pid (nodes c) with Some s => s | None => new_node end in
   let n0 := mkSN (Some n) (sn_claim old) [] [] [] [] (sn_marked old) in
   let '(n1, c1) := fold_left (populate_step (n_name n)) (a_pods a) (n0, c) in
   let c2 := match aget (n_name n) (n2p c1) with
-            | Some id => if id =s pid then c1 else cleanup_node (n_name n) c1
+            | Some id => if id =s pid then c1 else cleanup_node_gen keep_aggs (n_name n) c1
             | None => c1
             end in
   if panicked c2 then c2 else
   let c3 := upr_c (Some old) (Some n1) c2 in
   with_n2p (with_nodes c3 (aset pid n1 (nodes c3))) (aset (n_name n) pid (n2p c3)).
+Definition update_node := update_node_gen false.
 
 (* ---- UpdateNodeClaim ([carry_costs] = false is the code before commit 4e75b4bc9) ---- *)
 Definition update_claim_gen (carry_costs : bool) (cl : claimobj) (c : cache) : cache :=
@@ -327,34 +335,46 @@ Definition api_step (a : api) (o : op) : api :=
   | _ => a
   end.
 
-(* the informers: Get, then the Update method or (NotFound) the Delete method *)
-Definition deliver_node (a : api) (name : string) (c : cache) : cache :=
-  match aget name (a_nodes a) with Some n => update_node a n c | None => cleanup_node name c end.
-Definition deliver_claim_gen (cc : bool) (a : api) (name : string) (c : cache) : cache :=
-  match aget name (a_claims a) with Some cl => update_claim_gen cc cl c | None => cleanup_claim name c end.
-Definition deliver_claim := deliver_claim_gen true.
-Definition deliver_pod (a : api) (key : string) (c : cache) : cache :=
-  match aget key (a_pods a) with Some p => update_pod p c | None => pod_completion key c end.
+(* the informers: Get, then the Update method or (NotFound) the Delete method.
+   [variant]: which earlier version of the code is run (all false = the code as it is). *)
+Record variant := mkVar { v_drop_costs : bool; v_keep_aggs : bool; v_pending_noop : bool }.
+Definition current : variant := mkVar false false false.
 
-Definition cache_step_gen (cc : bool) (a : api) (c : cache) (o : op) : cache :=
+Definition deliver_node_gen (v : variant) (a : api) (name : string) (c : cache) : cache :=
+  match aget name (a_nodes a) with
+  | Some n => update_node_gen (v_keep_aggs v) a n c
+  | None => cleanup_node_gen (v_keep_aggs v) name c
+  end.
+Definition deliver_claim_gen (v : variant) (a : api) (name : string) (c : cache) : cache :=
+  match aget name (a_claims a) with
+  | Some cl => update_claim_gen (negb (v_drop_costs v)) cl c
+  | None => cleanup_claim name c
+  end.
+Definition deliver_pod_gen (v : variant) (a : api) (key : string) (c : cache) : cache :=
+  match aget key (a_pods a) with Some p => update_pod_gen (v_pending_noop v) p c | None => pod_completion key c end.
+Definition deliver_node := deliver_node_gen current.
+Definition deliver_claim := deliver_claim_gen current.
+Definition deliver_pod := deliver_pod_gen current.
+
+Definition cache_step_gen (v : variant) (a : api) (c : cache) (o : op) : cache :=
   if panicked c then c else
   match o with
-  | DeliverNode k => deliver_node a k c
-  | DeliverClaim k => deliver_claim_gen cc a k c
-  | DeliverPod k => deliver_pod a k c
+  | DeliverNode k => deliver_node_gen v a k c
+  | DeliverClaim k => deliver_claim_gen v a k c
+  | DeliverPod k => deliver_pod_gen v a k c
   | Mark ids => fold_left (set_mark true) ids c
   | Unmark ids => fold_left (set_mark false) ids c
   | _ => c
   end.
-Definition cache_step := cache_step_gen true.
+Definition cache_step := cache_step_gen current.
 
-Definition step_gen (cc : bool) (s : api * cache) (o : op) : api * cache :=
-  let a := api_step (fst s) o in (a, cache_step_gen cc a (snd s) o).
-Definition step := step_gen true.
+Definition step_gen (v : variant) (s : api * cache) (o : op) : api * cache :=
+  let a := api_step (fst s) o in (a, cache_step_gen v a (snd s) o).
+Definition step := step_gen current.
 
 Definition run_from (s : api * cache) (ops : list op) : api * cache := fold_left step ops s.
 Definition run (ops : list op) : api * cache := run_from (api0, cache0) ops.
-Definition run_gen (cc : bool) (ops : list op) : api * cache := fold_left (step_gen cc) ops (api0, cache0).
+Definition run_gen (v : variant) (ops : list op) : api * cache := fold_left (step_gen v) ops (api0, cache0).
 
 (* ---- the specification: what a recomputation from the API objects yields ---- *)
 Fixpoint find_node (pid : string) (l : amap nodeobj) : option nodeobj :=
